@@ -324,9 +324,14 @@ func RenderPos(in *Intent, indent string) (string, []posRec) {
 				hdr += " " + qstr(ep.Long)
 			}
 			hdr += renderParams(ep.Params) + renderMetaInline(ep.Meta) + ":"
-			if len(ep.Stmts) == 0 {
+			switch {
+			case len(ep.Meta.Annos) > 0:
+				r.line(1, hdr)
+				r.annos(2, ep.Meta)
+				r.stmts(2, ep.Stmts, a)
+			case len(ep.Stmts) == 0:
 				r.line(1, hdr+" ...")
-			} else {
+			default:
 				r.line(1, hdr)
 				r.stmts(2, ep.Stmts, a)
 			}
